@@ -8,7 +8,10 @@ RULE = ("seeded op scripts (find / find_or_insert / insert / erase+reclaim / ite
         "differing at each of the 16 nibble positions (position 0 included), dense runs in one leaf and a sibling leaf, 0 / 2^64-1 / "
         "2^63 / 2^60 boundaries, chains of splits above and below the root, random keys; after every op the whole node graph "
         "(prefix, depth, parent, 16 links, mask, constructed slots) by allocation order, every returned pointer as (node#, idx), "
-        "and the lifetime/allocation events are compared with the model; non-trivial = distinct script with at least one prefix "
+        "and the lifetime/allocation events are compared with the model; plus an assertion-path stream (one erase of an absent key "
+        "of each shape -- empty tree, null link, leaf with another prefix with/without a shared low nibble, inner node with another "
+        "prefix, right leaf with the bit clear, already erased key -- or insert of a present key per script: both sides must stop in "
+        "the assertion and nothing may have changed); non-trivial = distinct script with at least one prefix "
         "split (link node allocated) and at least one erase")
 TRUSTED = ["extraction: ExtrOcamlBasic only; OCaml 4.13.1; comp/radix/driver.ml",
            "correspondence harness comp/radix/harness.cpp (g++ -fsanitize=address,undefined, -fno-access-control)",
@@ -60,6 +63,11 @@ def run(c):
             fam, ls = gen.gen_case(c.rng, c.rng.choice([6, 15, 40, 100, 250]))
             c.count("radix_family_" + fam)
             cases.append(("g%d" % i, ls))
+        na = 250 if c.tier == "quick" else 2500          # assertion-path stream: one precondition-violating call per script
+        for i in range(na):
+            shape, ls = gen.gen_assert_case(c.rng, gen.ASSERT_SHAPES[i % len(gen.ASSERT_SHAPES)])
+            c.count("radix_assert_path_" + shape)
+            cases.append(("a%d" % i, ls))
         if c.tier == "thorough":
             cases += gen.exhaustive_small(3)
     for _, ls in cases:
